@@ -89,6 +89,9 @@ def err_handling(body, call, _fate=None):
         return 'DISCARDED', '; '.join(fate.notes)
     if 'PROPAGATED' in k:
         return 'PROPAGATED', ''
+    if 'MATCHED' in k and 'RETURNED' in k and getattr(fate, 'ref_tests', 0) and not [1 for _ in fate.ok_arm_blocks[getattr(fate, 'ref_tests', 0):]]:
+        # looked at (`if r.is_err() { .. }`) and then handed to the caller as it is
+        return 'RETURNED', ''
     if 'MATCHED' in k:
         # "the thing is not there" is an answer, not a failure: the edge taken when the kind of the error equals NotFound is a handled one
         from ..analysis import slice_const_values, switch_targets_bool
